@@ -60,9 +60,13 @@ def reset_registry():
   _STR_LITS.clear()
   del _AXIOMS[:]
   del _AXIOM_NAMES[:]
+  _AXIOM_KEYS.clear()
+  _DECL_CACHE.clear()
   _DT_CACHE.clear()
   _FN_CACHE.clear()
   _EXC_CONSTS.clear()
+  if 'val_axioms' in globals():
+    val_axioms()          # always registered; selected per VC by relevance
 
 
 def san(s):
@@ -77,11 +81,18 @@ def str_lit(s):
   return _STR_LITS[s]
 
 
-def add_axiom(name, ax):
+_AXIOM_KEYS = {}     # axiom id -> names of the symbols one of which must occur for it to matter
+
+
+def add_axiom(name, ax, keys=None):
+  """Registers a background axiom.  `keys`: it is added to a VC only if one of these symbols
+  occurs in the VC (or in an axiom already selected) -- its triggers could not fire otherwise,
+  and a VC must not depend on what else happened to be processed in the same run."""
   if name in _AXIOM_NAMES:
     return
   _AXIOM_NAMES.append(name)
   _AXIOMS.append(ax)
+  _AXIOM_KEYS[ax.get_id()] = set(keys) if keys else None
 
 
 _CONST_CACHE = {}
@@ -120,11 +131,65 @@ def _uninterpreted_consts1(exprs):
   return out
 
 
+_DECL_CACHE = {}
+
+
+def _decl_names(exprs):
+  """Names of all uninterpreted symbols (constants and functions) occurring in exprs."""
+  out = set()
+  for e in exprs:
+    key = e.get_id()
+    hit = _DECL_CACHE.get(key)
+    if hit is None or not hit[0].eq(e):
+      names, seen, stack = set(), set(), [e]
+      while stack:
+        t = stack.pop()
+        i = t.get_id()
+        if i in seen:
+          continue
+        seen.add(i)
+        if z3.is_quantifier(t):
+          stack.append(t.body())
+          for k in range(t.num_patterns()):
+            stack.extend(t.pattern(k).children())
+          continue
+        if z3.is_app(t):
+          if t.decl().kind() == z3.Z3_OP_UNINTERPRETED:
+            names.add(t.decl().name())
+          stack.extend(t.children())
+      hit = (e, names)
+      _DECL_CACHE[key] = hit
+    out |= hit[1]
+  return out
+
+
+def relevant_axioms(exprs):
+  """The registered axioms whose key symbols occur in exprs (closed under the symbols the
+  selected axioms themselves mention); registration order is kept."""
+  names = _decl_names(exprs)
+  chosen = set()
+  changed = True
+  while changed:
+    changed = False
+    for ax in _AXIOMS:
+      i = ax.get_id()
+      if i in chosen:
+        continue
+      keys = _AXIOM_KEYS.get(i)
+      if keys is None or keys & names:
+        chosen.add(i)
+        names |= _decl_names([ax])
+        changed = True
+  # sorted by axiom name: the text of a VC must not depend on registration order either
+  return [ax for _, ax in sorted(zip(_AXIOM_NAMES, _AXIOMS), key=lambda p: p[0])
+          if ax.get_id() in chosen]
+
+
 def background_axioms(exprs=None):
-  """Axioms added to every VC.  Only literals / exception classes that occur
-  in the VC are mentioned, so a VC does not depend on what else was processed
-  in the same run."""
-  axs = list(_AXIOMS)
+  """Axioms added to a VC.  Only axioms, literals and exception classes that are relevant to
+  the symbols occurring in the VC are mentioned, so a VC does not depend on what else was
+  processed in the same run."""
+  axs = list(_AXIOMS) if exprs is None else relevant_axioms(list(exprs))
   if exprs is None:
     lits = list(_STR_LITS.values())
     excs = None
@@ -670,20 +735,21 @@ def val_axioms():
       [s], z3.And(val_as_str(val_of_str(s)) == s,
                   tag_of(val_of_str(s)) == TAG['str'],
                   val_truthy(val_of_str(s)) == (s != str_lit(''))),
-      patterns=[val_of_str(s)]))
+      patterns=[val_of_str(s)]), keys=['val_of_str'])
   add_axiom('val_bool_roundtrip', z3.ForAll(
       [b], z3.And(val_as_bool(val_of_bool(b)) == b,
                   tag_of(val_of_bool(b)) == TAG['bool'],
                   val_truthy(val_of_bool(b)) == b),
-      patterns=[val_of_bool(b)]))
+      patterns=[val_of_bool(b)]), keys=['val_of_bool'])
   add_axiom('val_none', z3.And(tag_of(VAL_NONE) == TAG['none'],
                                z3.Not(val_truthy(VAL_NONE)),
                                tag_of(VAL_REQUIRED) == TAG['other'],
-                               val_truthy(VAL_REQUIRED)))
+                               val_truthy(VAL_REQUIRED)),
+            keys=['val!None', 'val!REQUIRED', 'tag_of', 'val_truthy'])
   v = z3.Const('v!va', Val)
   add_axiom('val_none_unique', z3.ForAll(
       [v], (tag_of(v) == TAG['none']) == (v == VAL_NONE),
-      patterns=[tag_of(v)]))
+      patterns=[tag_of(v)]), keys=['tag_of'])
 
 
 def to_val(w):
@@ -716,7 +782,7 @@ def to_val(w):
     if tagname:
       extra.append(tag_of(f(b)) == TAG[tagname])
     add_axiom('inj_' + sn, z3.ForAll([b], z3.And(g(f(b)) == b, *extra),
-                                     patterns=[f(b)]))
+                                     patterns=[f(b)]), keys=['val_of_' + sn])
     return f(boxed)
   raise OutOfSubset(f'cannot inject {type(w).__name__} into Val')
 
